@@ -131,3 +131,21 @@ Fixpoint scan_cdata (s acc : list N) : option (list N * list N) :=
               | _ => None
               end
   end.
+
+(** a sequence of CDATA sections as a parser reads it: "<![CDATA[", text up to the first "]]>", repeated until the
+    input is exhausted; the concatenated text, or [None] when the input is not such a sequence *)
+Fixpoint parse_sections (fuel : nat) (out : list N) : option (list N) :=
+  match out with
+  | [] => Some []
+  | _ =>
+    match fuel with
+    | O => None
+    | S f =>
+      if list_eqb (firstn 9 out) [60; 33; 91; 67; 68; 65; 84; 65; 91] then
+        match scan_cdata (skipn 9 out) [] with
+        | Some (t, rest) => match parse_sections f rest with Some u => Some (t ++ u) | None => None end
+        | None => None
+        end
+      else None
+    end
+  end.
